@@ -1193,6 +1193,134 @@ func (h *supH) directedCompletedDependentShutdown(emit func(string)) {
 	}
 }
 
+// directedStoppingDependentShutdown: ordered shutdown while a dependent of `d` is already being
+// stopped by an earlier request and is still alive (it ignores the signal, its kill timer is armed):
+// `d` may be signalled only after that dependent has gone.
+func (h *supH) directedStoppingDependentShutdown(emit func(string)) {
+	for _, first := range []string{"stop", "restart"} {
+		emit("sup coarse 1")
+		emit("proc d no 0 - 0 0 0 -")
+		emit("proc a no 0 - 40 0 ign d:t")
+		emit("deps a d:t")
+		emit("init")
+		emit("s call 0 run")
+		h.drain(emit)
+		emit(fmt.Sprintf("s call 1 %s a", first))
+		h.drain(emit)
+		emit("s call 2 shutdown")
+		h.drain(emit)
+		for i := 0; i < 8 && !h.dead; i++ {
+			if h.killArmed("a") {
+				emit("s killto a")
+				h.drain(emit)
+				continue
+			}
+			al := h.aliveNames()
+			if len(al) == 0 {
+				break
+			}
+			emit(fmt.Sprintf("s exit %s 0", al[0]))
+			h.drain(emit)
+		}
+		if len(h.aliveNames()) == 0 && len(h.enabledKeys()) == 0 {
+			emit("end quiescent")
+		} else {
+			emit("end limit")
+		}
+	}
+}
+
+// directedStartOnRegistered: a start request on a process whose instance is registered but has no
+// command up at that moment - it waits out its back-off, or it has been signalled and is slow to die.
+// The request must fail and change nothing.
+func (h *supH) directedStartOnRegistered(emit func(string)) {
+	for _, kind := range []string{"backoff", "terminating"} {
+		emit("sup coarse 0")
+		if kind == "backoff" {
+			emit("proc a always 0 - 0 0 0 -")
+		} else {
+			emit("proc a no 0 - 40 0 ign -")
+		}
+		emit("proc b no 0 - 0 0 0 -")
+		emit("init")
+		emit("s call 0 run")
+		h.drain(emit)
+		if kind == "backoff" {
+			emit("s exit a 1")
+			h.drain(emit)
+		} else {
+			emit("s call 1 stop a")
+			h.drain(emit)
+		}
+		emit("s call 2 start a")
+		h.drain(emit)
+		emit("s call 3 shutdown")
+		h.drain(emit)
+		for i := 0; i < 8 && !h.dead; i++ {
+			if h.killArmed("a") {
+				emit("s killto a")
+				h.drain(emit)
+				continue
+			}
+			al := h.aliveNames()
+			if len(al) == 0 {
+				break
+			}
+			emit(fmt.Sprintf("s exit %s 0", al[0]))
+			h.drain(emit)
+		}
+		if len(h.aliveNames()) == 0 && len(h.enabledKeys()) == 0 {
+			emit("end quiescent")
+		} else {
+			emit("end limit")
+		}
+	}
+}
+
+// directedStaleReadyLine: the dependency printed its ready line in a first run and completed; it is
+// started again and that run ends without the line; a dependent waiting for process_log_ready is
+// started afterwards (or is started while the second run is still going): it must be skipped.
+func (h *supH) directedStaleReadyLine(emit func(string)) {
+	for _, late := range []bool{true, false} {
+		emit("sup coarse 0")
+		emit("proc d no 0 l 0 0 0 -")
+		emit("proc a no 0 x 0 0 0 d:l")
+		emit("deps a d:l")
+		emit("init")
+		emit("s call 0 run")
+		h.drain(emit)
+		emit("s line d 1")
+		h.drain(emit)
+		emit("s exit d 0")
+		h.drain(emit)
+		emit("s call 1 start d")
+		h.drain(emit)
+		if !late {
+			emit("s call 2 start a")
+			h.drain(emit)
+		}
+		emit("s exit d 0")
+		h.drain(emit)
+		if late {
+			emit("s call 2 start a")
+			h.drain(emit)
+		}
+		for i := 0; i < 6 && !h.dead; i++ {
+			al := h.aliveNames()
+			if len(al) == 0 {
+				break
+			}
+			emit(fmt.Sprintf("s exit %s 0", al[0]))
+			h.drain(emit)
+		}
+		if len(h.aliveNames()) == 0 && len(h.enabledKeys()) == 0 {
+			emit("end quiescent")
+		} else {
+			emit("end limit")
+		}
+	}
+}
+
 // directedRestartNotRunning: a restart request on a process that is registered but has no command at
 // the moment — it waits for a dependency, or it sits in the back-off before a relaunch. The instance
 // that was replaced must not launch anything later (when the dependency ends / the back-off elapses).
@@ -1443,6 +1571,9 @@ func (h *supH) Gen(r *rand.Rand, tier string, emit func(string)) {
 	h.directedLateLookup(emit)
 	h.directedReplicatedDependent(emit)
 	h.directedCompletedDependentShutdown(emit)
+	h.directedStoppingDependentShutdown(emit)
+	h.directedStartOnRegistered(emit)
+	h.directedStaleReadyLine(emit)
 	h.directedRestartNotRunning(emit)
 	h.directedExit(emit)
 	h.directedStopThenShutdown(emit)
